@@ -347,6 +347,7 @@ class TU:
             raise FrontEndError("record %s contains itself by value" % key)
         self._in_progress.add(key)
         pending_anon = None
+        bitpos = None
         for c in rec.get('inner', []):
             if c.get('kind') == 'RecordDecl':
                 self._add_record(c)
@@ -368,7 +369,30 @@ class TU:
             else:
                 ft = self.parse_type(q, t['qualType'])
             if c.get('isBitfield'):
-                raise FrontEndError("bit-field in record %s not supported by layout()" % key)
+                # GCC/SysV packing of bit-fields (non-zero widths): next free bit, moved to the next
+                # storage unit of the declared type if the field would straddle one
+                width = None
+                for e in c.get('inner', []) or []:
+                    try:
+                        width = self._const_eval(e)
+                    except Exception:
+                        pass
+                if width is None or width <= 0 or is_union or ft.kind != 'int':
+                    raise FrontEndError("bit-field shape in record %s not supported by layout()" % key)
+                usize = ft.size
+                if bitpos is None:
+                    bitpos = off * 8
+                if bitpos // (8 * usize) != (bitpos + width - 1) // (8 * usize):
+                    bitpos = (bitpos + 8 * usize - 1) // (8 * usize) * (8 * usize)
+                uoff = bitpos // (8 * usize) * usize
+                if c.get('name'):
+                    fields[c['name']] = (uoff, ft, (bitpos - 8 * uoff, width))
+                bitpos += width
+                off = (bitpos + 7) // 8
+                size = max(size, uoff + usize)
+                align = max(align, ft.align)
+                continue
+            bitpos = None
             a = ft.align
             if is_union:
                 o = 0
@@ -446,7 +470,9 @@ def check_layouts(tu, keys, path=None, repo=None):
         size, align, fields = tu.layout(key)
         lines.append('_Static_assert(sizeof(%s)==%d, "sizeof %s");' % (cname, size, cname))
         n += 1
-        for fn, (o, ft, _) in fields.items():
+        for fn, (o, ft, bits_) in fields.items():
+            if bits_ is not None:
+                continue            # no offsetof for bit-fields (their unit is pinned by the neighbours and sizeof)
             lines.append('_Static_assert(offsetof(%s,%s)==%d, "offsetof %s.%s");' % (cname, fn, o, cname, fn))
             n += 1
     src = "\n".join(lines) + "\n"
